@@ -1029,7 +1029,8 @@ def is_blocking(node: ast.AST, parent_type: ast.AST = None) -> bool:
         try:
             test_value = literal_value(node.test)
         except ValueError:
-            pass
+            # The test may be false on entry, so the loop may run zero times
+            return False
         else:
             if not test_value:
                 return False
